@@ -108,3 +108,28 @@ Definition rstep (s : rstate) (o : rop) : option rstate :=
   end.
 Definition rrun (ops : list rop) (s : rstate) : rstate :=
   fold_left (fun s o => match rstep s o with Some s' => s' | None => s end) ops s.
+
+(* ---------------- Linen: LazyRng and the jit boundary (flax/core/scope.py LazyRng, flax/core/lift.py jit / fold_rngs) ---------------- *)
+(* a Linen key is the seed key or the result of folding the SHA-1 digest of a byte string into a key; the hash and fold_in
+   are idealised as injective (the byte string is kept) *)
+Inductive lkey := LRoot (s : N) | LFold (k : lkey) (bytes : list N).
+Fixpoint lkey_beq (a b : lkey) : bool :=
+  match a, b with
+  | LRoot x, LRoot y => N.eqb x y
+  | LFold k x, LFold k' y => lkey_beq k k' && list_beq N.eqb x y
+  | _, _ => false
+  end.
+(* LazyRng: a key and the static suffix (path, counts) still to be folded in *)
+Record lazyrng := mkLazy { lr_key : lkey; lr_suffix : list foldable }.
+Definition lazy_create (r : lazyrng) (more : list foldable) : lazyrng := mkLazy (lr_key r) (lr_suffix r ++ more).
+(* as_jax_rng: _fold_in_static returns the key itself for an empty suffix *)
+Definition as_jax_rng (sep : bool) (r : lazyrng) : lkey :=
+  match lr_suffix r with [] => lr_key r | _ => LFold (lr_key r) (enc sep (lr_suffix r)) end.
+(* Scope.make_rng: LazyRng.create(self.rngs[name], count).as_jax_rng() *)
+Definition make_rng_key (sep : bool) (r : lazyrng) (count : N) : lkey := as_jax_rng sep (lazy_create r [FInt count]).
+(* the rngs of a child scope: LazyRng.create(parent_rng, name) *)
+Definition child_rng (r : lazyrng) (name : list N) : lazyrng := lazy_create r [FStr name].
+(* what lift.jit / fold_rngs hand to the transformed function: before the repair the suffix was dropped (clear_suffix),
+   now it is folded into the key data *)
+Definition clear_suffix (r : lazyrng) : lazyrng := mkLazy (lr_key r) [].
+Definition materialise (sep : bool) (r : lazyrng) : lazyrng := mkLazy (as_jax_rng sep r) [].
